@@ -37,3 +37,4 @@ _case("x_loop_sum", items=ListOf(Int(0, 6), max_len=4), lim=Int(0, 6))
 _case("x_zip_enum", xs=_L, ys=_L)
 _case("x_try", a=Int(-6, 6), items=_L)
 _case("x_chain_cmp", a=_I, b=_I, c=_I)
+_case("x_namedtuple", a=_I, b=_I, items=_L)
